@@ -218,8 +218,9 @@ class Request(HTTPConnection):
                 body = (await self.body).decode(
                     encoding=self.content_type.options.get("charset", "latin-1")
                 )
-            except (UnicodeDecodeError, LookupError) as exc:
-                # undecodable bytes or an unknown charset: a client error, not a 500
+            except (ValueError, LookupError) as exc:
+                # undecodable bytes (UnicodeDecodeError is a ValueError), an unknown or
+                # unusable charset name: a client error, not a 500
                 raise HTTPException(400, content=str(exc)) from None
             return FormData(parse_qsl(body, keep_blank_values=True))
 
